@@ -1418,10 +1418,18 @@ impl<Target: Composer> AdditionalBuilder<Target> {
             &mut OptBuilder<'_, Target>,
         ) -> Result<(), Target::AppendError>,
     {
-        self.authority.answer.builder.push(
+        // The closure can change the RCODE in the message header via
+        // `OptBuilder::set_rcode`. If the record doesn't make it into the
+        // message, that change has to be undone as well.
+        let rcode = self.header().rcode();
+        let res = self.authority.answer.builder.push(
             |target| OptBuilder::new(target)?.build(op),
             |counts| counts.inc_arcount(),
-        )
+        );
+        if res.is_err() {
+            self.header_mut().set_rcode(rcode);
+        }
+        res
     }
 }
 
